@@ -22,19 +22,23 @@
 (*   NoStale     a block that was cut off by a truncation and is not freed yet never     *)
 (*               lies below the size again: growing the file cannot re-expose old data    *)
 EXTENDS Integers, FiniteSets, TLC
-CONSTANTS MaxB, K, Budget, KeepSsz, UseResult, MaxOps, Slack    \* MaxOps = 0: no bound on the number of operations (the whole reachable space)
+CONSTANTS MaxB, K, Budget, KeepSsz, UseResult, MaxOps, Slack, Recheck    \* MaxOps = 0: no bound on the number of operations (the whole reachable space)
 (* K: what Resize estimates to fit in its transaction (shrinkFits(oldsz-newSz)); Budget <= K: what one transaction   *)
 (* really frees (every freed block also dirties bitmap and index blocks, and Shrink re-checks the room per block).   *)
 
+(* Recheck (TRUE in the code): getShrink looks at the file again, under its lock, after it has helped a truncation to   *)
+(* its end; FALSE (a seeded change, r18h): it takes the file for done because the helping transactions returned - the    *)
+(* file is unlocked between their end and the request's own lock, and another request can cut it again in between.        *)
 VARIABLES kind, sz, ssz, map, shq, crashed, nops,
+          pass,      \* a request has helped a truncation to its end and has not locked the file again yet (only used with Recheck = FALSE)
           stale      \* history: blocks cut off by a truncation (index >= the size set) that still hold their old content
-vars == <<kind, sz, ssz, map, shq, crashed, nops, stale>>
+vars == <<kind, sz, ssz, map, shq, crashed, nops, pass, stale>>
 Max(a, b) == IF a > b THEN a ELSE b
 Pending == ssz > sz
 Seen == ssz > sz + Slack       \* what getShrink takes for "still being freed" (IsShrinking; Slack = 0 in the code)
 Cut(n) == {i \in map : i >= n}
 
-Init == kind = "file" /\ sz = 0 /\ ssz = 0 /\ map = {} /\ shq = FALSE /\ crashed = FALSE /\ nops = 0 /\ stale = {}
+Init == kind = "file" /\ sz = 0 /\ ssz = 0 /\ map = {} /\ shq = FALSE /\ crashed = FALSE /\ nops = 0 /\ pass = FALSE /\ stale = {}
 
 (* Shrink(): free from the top while the transaction has room; returns the new state *)
 RECURSIVE DoShrink(_, _, _, _)
@@ -57,13 +61,16 @@ Help ==
   /\ kind = "file" /\ Seen /\ (MaxOps = 0 \/ nops < MaxOps)
   /\ LET r == DoShrink(sz, ssz, map, Budget) IN ssz' = r[1] /\ map' = r[2]
   /\ crashed' = (crashed /\ ssz' > sz) /\ nops' = (IF MaxOps = 0 THEN nops ELSE nops + 1)
+  /\ pass' = (~Recheck /\ ~(ssz' > sz + Slack))
   /\ stale' = stale \cap map' /\ UNCHANGED <<kind, sz, shq>>
+Go == ~Seen \/ pass                    \* the request goes ahead: the file is not being freed, or it was not when the request last looked
+Used == IF Seen THEN FALSE ELSE pass    \* (the stale look is used up by the request that relies on it)
 Write(i) ==
-  /\ kind = "file" /\ ~Seen /\ (MaxOps = 0 \/ nops < MaxOps)
+  /\ kind = "file" /\ Go /\ pass' = Used /\ (MaxOps = 0 \/ nops < MaxOps)
   /\ map' = map \cup {i} /\ sz' = Max(sz, i + 1) /\ nops' = (IF MaxOps = 0 THEN nops ELSE nops + 1)
   /\ UNCHANGED <<kind, ssz, shq, crashed, stale>>        \* a write may cover part of a block only: what is stale stays stale
 Setattr(n) ==
-  /\ kind = "file" /\ ~Seen /\ n # sz /\ (MaxOps = 0 \/ nops < MaxOps)
+  /\ kind = "file" /\ Go /\ pass' = Used /\ n # sz /\ (MaxOps = 0 \/ nops < MaxOps)
   /\ LET r == Resize(n) IN sz' = r[1] /\ ssz' = r[2] /\ map' = r[3] /\ shq' = (shq \/ r[4])
   /\ stale' = (stale \cup Cut(n)) \cap map'
   /\ nops' = (IF MaxOps = 0 THEN nops ELSE nops + 1) /\ UNCHANGED <<kind, crashed>>
@@ -71,19 +78,19 @@ Remove ==      \* doDecLink: Resize(0) and free the inode, whatever state it is 
   /\ kind = "file" /\ (MaxOps = 0 \/ nops < MaxOps)
   /\ LET r == Resize(0) IN sz' = r[1] /\ ssz' = r[2] /\ map' = r[3] /\ shq' = (shq \/ r[4])
   /\ stale' = (stale \cup Cut(0)) \cap map'
-  /\ kind' = "free" /\ nops' = (IF MaxOps = 0 THEN nops ELSE nops + 1) /\ UNCHANGED crashed
+  /\ kind' = "free" /\ nops' = (IF MaxOps = 0 THEN nops ELSE nops + 1) /\ pass' = FALSE /\ UNCHANGED crashed
 Alloc ==       \* getAlloc: a half-freed number is first shrunk completely (DoShrink), then initialised
   /\ kind = "free" /\ (MaxOps = 0 \/ nops < MaxOps)
   /\ IF Pending THEN LET r == DoShrink(sz, ssz, map, Budget) IN ssz' = r[1] /\ map' = r[2] /\ UNCHANGED <<kind, sz>>
      ELSE kind' = "file" /\ sz' = 0 /\ ssz' = 0 /\ UNCHANGED map
   /\ crashed' = (crashed /\ ssz' > sz') /\ nops' = (IF MaxOps = 0 THEN nops ELSE nops + 1) /\ UNCHANGED shq
-  /\ stale' = stale \cap map'
+  /\ stale' = stale \cap map' /\ UNCHANGED pass
 Shrinker ==    \* one transaction of the background thread
   /\ shq
   /\ LET r == DoShrink(sz, ssz, map, Budget) IN ssz' = r[1] /\ map' = r[2] /\ shq' = (r[1] > sz)
-  /\ stale' = stale \cap map' /\ UNCHANGED <<kind, sz, crashed, nops>>
+  /\ stale' = stale \cap map' /\ UNCHANGED <<kind, sz, crashed, nops, pass>>
 Crash ==       \* the shrinker thread is gone; the inode on disk is what the last transaction left
-  /\ shq /\ shq' = FALSE /\ crashed' = Pending /\ UNCHANGED <<kind, sz, ssz, map, nops, stale>>
+  /\ shq /\ shq' = FALSE /\ crashed' = Pending /\ UNCHANGED <<kind, sz, ssz, map, nops, pass, stale>>
 
 Next == Help \/ (\E i \in 0..(MaxB - 1) : Write(i)) \/ (\E n \in 0..MaxB : Setattr(n)) \/ Remove \/ Alloc \/ Shrinker \/ Crash
 Spec == Init /\ [][Next]_vars
